@@ -702,6 +702,7 @@ func runC09(h *Harness) {
 	case "shutdown-race":
 		// Cleanup runs concurrently with the lookup; the scheduler decides the interleaving
 		h.S.pPre = (1 << 32) / 5
+		h.S.pDelayDen, h.S.delayFor = []int{0, 4, 8}[idx%3], 2*time.Second
 		var rv bool
 		var lerr error
 		var pv any
